@@ -16,6 +16,7 @@ Op == CASE E.op = "Start" -> Start
         [] E.op = "Crash" -> Crash
         [] E.op = "Again" -> Again(E.c)
         [] E.op = "Freeze" -> Freeze
+        [] E.op = "Ghost" -> Ghost
         [] OTHER -> FALSE
 
 TNext ==
